@@ -26,6 +26,7 @@ TRANSFORMS = {
     "in_cat": ("cat $IN", lambda b: b),
     "in_out": (H + "/cp.sh $IN $OUT", lambda b: b),
     "in_head": ("head -c 4096 $IN", lambda b: b[:4096]),
+    "in_out_dd": (H + "/cpfirst.sh $IN $OUT", lambda b: b),
     # fails (after 64 bytes of output) on inputs whose 65th byte is odd: such files are left out
     "failodd": (H + "/failodd.sh", lambda b: b[:64] if len(b) <= 64 or b[64] % 2 == 0 else None),
 }
@@ -74,6 +75,8 @@ def group_argv(o, roots, fmt="json", extra=()):
         a += [b"--transform", TRANSFORMS[o["transform"]][0].encode()]
     if o.get("skip_content_hash"):
         a += [b"--skip-content-hash"]
+    if o.get("no_copy"):
+        a += [b"--no-copy"]
     if o.get("match_links"):
         a += [b"-H"]
     if o.get("symbolic_links"):
